@@ -14,6 +14,9 @@ TRUSTED = [
     "extractor translate/extract_escapes.py (branch table of printEscaped) regenerating Gen/EscapeTables.lean; its output is also "
     "exercised by the correspondence",
     "the TeamCity escaping rules as written down in Spec/TeamCity.lean (| before ' | [ ], |n, |r)",
+    "extractor translate/extract_failure_ctors.py (member-initialiser lists of the three TestFailure constructors, copy constructor, "
+    "getters, isOutsideTestFile/isInHelperFunction, FailFailure) regenerating Gen/FailureCtors.lean; exercised by the correspondence "
+    "through failures built by every constructor, from the test body and from a plugin's post-test action",
     "SimpleString's == on the group name behaves as byte-string equality (property C13)",
 ]
 ASSUMPTIONS = [
@@ -22,8 +25,8 @@ ASSUMPTIONS = [
     "text printed by tests (UT_PRINT) is not part of the property; the stream theorems treat it as opaque text that does not contain '##teamcity['",
     "failures are reported by the running test about itself (TestFailure built from the current shell), as all check macros do",
 ]
-RULE = ("scripted registries: 1-5 group runs, pass / fail (continuing and terminating, inside the test, in a helper above it, in another "
-        "file) / ignored tests, optional name filter, names-paths-messages over printable ASCII with ' | [ ] CR LF frequent and some "
+RULE = ("scripted registries: 1-5 group runs, pass / fail through every TestFailure constructor (file+line+message, message only, file+line only, FailFailure; from the body "
+        "and from a plugin's post-test action; inside the test, in a helper above it, in another file) / ignored tests, optional name filter, names-paths-messages over printable ASCII with ' | [ ] CR LF frequent and some "
         "longer than 100 bytes; non-trivial = the stream contains an escaped byte or a failure or an ignored test; distinct = distinct op sequences")
 
 
@@ -65,8 +68,8 @@ signature = G.signature
 
 
 def translate(ctx):
-    from translate import extract_escapes
-    return extract_escapes.run()
+    from translate import extract_escapes, extract_failure_ctors
+    return (extract_escapes.run() or []) + (extract_failure_ctors.run() or [])
 
 
 def _stream(r):
@@ -102,8 +105,15 @@ def observe(r, rep):
         rep.count("branch.name_filter")
         if any(not G.should_run(reg, t) for t in reg["tests"]):
             rep.count("branch.test_filtered_out")
-    if any(sum(1 for a in G.executed(t) if a[0] in ("fail", "failx")) >= 2 for t in reg["tests"]):
+    if any(len(G.failures(t)) >= 2 for t in reg["tests"]):
         rep.count("branch.several_failures_in_one_test")
+    for t in reg["tests"]:
+        if not G.should_run(reg, t) or t["ignored"]:
+            continue
+        for a in G.executed(t) + [x for x in t["acts"] if x[0] == "postfail"]:
+            if a[0] in ("fail", "failx", "failmsg", "failloc", "postfail"):
+                rep.count("ctor." + {"fail": "file_line_message", "failx": "FailFailure", "failmsg": "message_only",
+                                     "failloc": "file_line_only", "postfail": "message_only_from_plugin"}[a[0]])
 
 
 # ---------------------------------------------------------------- second, independent decoder (Python)
@@ -140,9 +150,8 @@ def py_judge(ops, stream):
             want.append(("testStarted", t["name"]))
             if t["ignored"]:
                 want.append(("testIgnored", t["name"]))
-            for a in G.executed(t):
-                if a[0] in ("fail", "failx"):
-                    want.append(("testFailed", t["name"], a[1], a[2], a[3], t))
+            for (ffile, fline, msg) in G.failures(t):
+                want.append(("testFailed", t["name"], ffile, fline, msg, t))
             want.append(("testFinished", t["name"]))
         want.append(("testSuiteFinished", g))
     got = []
